@@ -156,10 +156,29 @@ func Harness_C19_expiry() {
 		verif_Assert("C19.exp.routes_while_alive", lerr == nil && got.ClientID == 1001 && got.IsActive())
 	} else {
 		verif_Assert("C19.exp.dead_after_expiry", lerr != nil || (got.IsExpired() && !got.IsActive()))
-		n, cerr := r.CleanupExpiredMappings(ctx)
-		verif_Assert("C19.exp.cleanup_removes", cerr == nil && n == 1)
-		_, err = r.CreateMapping(ctx, 1002, "app", "tunnox.net", "127.0.0.1", 9090)
-		verif_Assert("C19.exp.name_free_again", err == nil)
+		// somebody else may try the name while the expired record is still there (whether that is
+		// allowed is the implementation's choice - but whoever got the name keeps it)
+		var early *HTTPDomainMapping
+		if verif_Bool() {
+			early, _ = r.CreateMapping(ctx, 1002, "app", "tunnox.net", "127.0.0.1", 9090)
+		}
+		// the expired record goes away: by the sweep or by its owner deleting it
+		if verif_Bool() {
+			n, cerr := r.CleanupExpiredMappings(ctx)
+			verif_Assert("C19.exp.cleanup_removes", cerr == nil && n == 1)
+		} else {
+			verif_Assert("C19.exp.owner_deletes_expired", r.DeleteMapping(ctx, a.ID, 1001) == nil)
+		}
+		if early != nil {
+			cur, cerr2 := r.LookupByDomain(ctx, "app.tunnox.net")
+			verif_Assert("C19.exp.early_claimant_keeps_name", cerr2 == nil && cur.ID == early.ID && cur.ClientID == 1002)
+			_, err3 := r.CreateMapping(ctx, 1003, "app", "tunnox.net", "127.0.0.1", 7070)
+			verif_Assert("C19.exp.no_second_owner", err3 != nil)
+			verif_Cover("C19.exp.early_claim")
+		} else {
+			_, err = r.CreateMapping(ctx, 1002, "app", "tunnox.net", "127.0.0.1", 9090)
+			verif_Assert("C19.exp.name_free_again", err == nil)
+		}
 		verif_Cover("C19.exp.expired")
 	}
 	verif_Cover("C19.exp.done")
